@@ -31,6 +31,31 @@ theorem digits_lt10 (n : Nat) : ∀ d ∈ digits n, d < 10 := by
 theorem digits_ne_nil (n : Nat) : digits n ≠ [] := by
   unfold digits; split <;> simp
 
+/-- a number below `10^(k+1)` has at most `k+1` decimal digits -/
+theorem digits_length_le (k : Nat) : ∀ n, n < 10 ^ (k + 1) → (digits n).length ≤ k + 1 := by
+  induction k with
+  | zero =>
+    intro n hn
+    unfold digits
+    have : n < 10 := by simpa using hn
+    simp [this]
+  | succ k ih =>
+    intro n hn
+    unfold digits
+    split
+    · simp
+    · have hdiv : n / 10 < 10 ^ (k + 1) := by
+        apply Nat.div_lt_of_lt_mul
+        rw [Nat.pow_succ, Nat.mul_comm] at hn
+        exact hn
+      have := ih (n / 10) hdiv
+      simp only [List.length_append, List.length_singleton]
+      omega
+
+/-- numbers below `10 ^ maxStrDigits` are within CPython's `int()` conversion limit -/
+theorem digits_within_limit (n : Nat) (h : n < 10 ^ maxStrDigits) : (digits n).length ≤ maxStrDigits :=
+  digits_length_le 4299 n h
+
 theorem isAsciiDigit_digitChar (d : Nat) (h : d < 10) : isAsciiDigit (digitChar d) = true := by
   have : ∀ d, d < 10 → isAsciiDigit (digitChar d) = true := by decide
   exact this d h
